@@ -612,6 +612,31 @@ func (c *Check) withdrawRules(prefix string) {
 				set19 = append(set19, e)
 			}
 		}
+		// the earnings records that are reset are the ones that exist (found by a scan, or under keys read back from records):
+		// a key rebuilt from a module parameter (the base denomination in force today) misses records written under another value
+		for _, e := range effs {
+			if e.Kind == "store" && e.Op == "Delete" && (e.Family == "0x18" || e.Family == "0x19") && e.Key != nil {
+				usesParam := ""
+				e.Key.Walk(func(t *Term) bool {
+					if strings.HasSuffix(t.Op, "Subspace.Get") {
+						usesParam = t.Op
+					}
+					if g := c.P.FuncNamed(t.Op); g != nil && g.pkgName() == "keeper" && g.Body != nil {
+						for _, pg := range c.P.PathsOf(g) {
+							for _, ev := range pg.Events {
+								if ev.Kind == EvCall && strings.HasSuffix(ev.CI.name, "Subspace.Get") {
+									usesParam = g.Name
+								}
+							}
+						}
+					}
+					return true
+				})
+				if usesParam != "" {
+					add("provider-reset", "an earnings record is deleted under a key built from a module parameter ("+usesParam+"): records stored under another value of that parameter survive the withdrawal", pa)
+				}
+			}
+		}
 		// deletion calls, independent of naming: calls whose summary deletes the family
 		del18, del19 := c.deletionCalls(f, pa, "0x18"), c.deletionCalls(f, pa, "0x19")
 		if pay == nil {
